@@ -531,7 +531,9 @@ def schema_checks(T, c, out):
     if got != want:
         return ("Molecule", "Molecule(**schema) attributes differ from the record: " + str({k: (want[k], got[k]) for k in want if want[k] != got[k]}))
     mg = [float(x) for x in mol.geometry.reshape(-1)]
-    if len(mg) != 3 * nat or not all(abs(x - round(float(y) * factor, 8)) <= 2e-8 for x, y in zip(mg, rec["geom"])):
+    # np.around(x, 8) = rint(x * 1e8) / 1e8 carries two roundings of relative size 2^-53 each; 4e-16 |x| allows for both with
+    # a margin of about 2 (it is 4e-13 at |x| = 1000 and only matters for the far stream)
+    if len(mg) != 3 * nat or not all(abs(x - round(float(y) * factor, 8)) <= 2e-8 + 4e-16 * abs(x) for x, y in zip(mg, rec["geom"])):
         return ("Molecule", "Molecule geometry is not the record's geometry (in Bohr, 8 decimals)")
     return None
 
@@ -734,6 +736,241 @@ def add_near_pair(rng, c):
     g[3 * j:3 * j + 3] = [format(Decimal(g[3 * i + k]) + off[k], "f") for k in range(3)]
     c["geom"] = g
     c["near_pair"] = [i, j]
+
+
+# ------------------------------------------------------------------------------------------------
+# stream "far": the same molecules far from the origin.  The rigid translation is (small odd integer) x 2^p per
+# component, p = 12..34, and the molecule's own coordinates are snapped to a dyadic grid 2^-b with b chosen so that
+# every translated coordinate has at most 15 significant decimal digits: it is then an exact binary64 number AND its
+# shortest repr is its exact value, so the model (exact rationals read from the text) and the implementation see the
+# same numbers.  A screen on coordinate DIFFERENCES is then exact, while any screen that forms |a|^2, a.b or other
+# quantities of the size of the coordinates loses the 0.1-bohr separations.
+
+
+def dyadic(x, bits):
+    grid = 2 ** bits
+    return Decimal(int((Decimal(x) * grid).to_integral_value(rounding="ROUND_HALF_EVEN"))) / Decimal(grid)
+
+
+def far_shift(rng):
+    p = rng.randrange(12, 35)
+    while True:
+        sh = []
+        for _ in range(3):
+            if rng.random() < 0.2:
+                sh.append(0)
+            else:
+                sh.append(rng.choice([1, -1]) * rng.choice([1, 1, 3, 5, 7]) * 2 ** max(12, min(34, p + rng.randrange(-3, 4))))
+        if any(sh):
+            return sh
+
+
+def gen_far_case(ctx, T, schema_like):
+    rng = ctx.rng
+    while True:
+        c = gen_case(ctx, T, schema_like=schema_like)
+        if len(c["geom"]) % 3 == 0 and len(c["geom"]) >= 6:
+            break
+    c.pop("near_pair", None)
+    nat = len(c["geom"]) // 3
+    sh = far_shift(rng)
+    bits = max(4, min(12, 15 - len(str(max(abs(x) for x in sh) + 16))))      # integer digits + fractional digits <= 15
+    pts = [[dyadic(x, bits) for x in c["geom"][3 * i:3 * i + 3]] for i in range(nat)]
+    kind = rng.choice(["near", "near", "near", "near", "coincident", "plain"])
+    if kind != "plain":
+        i, j = rng.sample(range(nat), 2)
+        if rng.random() < 0.3:
+            i, j = rng.choice([(0, nat - 1), (nat - 1, 0), (nat - 2, nat - 1), (0, 1)])
+        off = [Decimal(0)] * 3
+        if kind == "near":
+            t2 = Decimal(c.get("tooclose", "0.1")) ** 2
+            for _ in range(60):
+                cand = [dyadic(x, bits) for x in near_offset(rng, c.get("tooclose", "0.1"))]
+                n2 = sum(x * x for x in cand)
+                if n2 > 0 and abs(n2 - t2) > Decimal("0.002") * t2:
+                    off = cand
+                    break
+            else:
+                kind = "coincident"        # the grid is too coarse for this tooclose
+        pts[j] = [pts[i][k] + off[k] for k in range(3)]
+        c["near_pair"] = [i, j]
+    c["geom"] = [format(p[k] + sh[k], "f") for p in pts for k in range(3)]
+    for x in c["geom"]:
+        if Decimal(repr(float(x))) != Decimal(x):
+            raise AssertionError("far generator: %s is not an exact binary64 value with a short repr" % x)
+    c["far"] = {"kind": kind, "shift": sh, "grid_bits": bits}
+    if schema_like:
+        c["schema_like"] = True
+    return c
+
+
+SWEEP_OFFS = [(0, 0, 0), (0, 0, 0), (1, 0, 0), (0, -1, 0), (1, 1, 0), (0, 1, -1), (-1, 0, 1), (1, 1, 1), (-1, 1, 1), (2, 0, 0), (1, -1, 2)]
+
+
+def gen_far_sweep(ctx, T, n_bases):
+    """small molecules (2-4 atoms on a 1/16 grid) with a coincident pair or a pair 0.0625 .. 0.15 apart, each translated to
+    every magnitude 2^10 .. 2^36 (two directions per magnitude); implementation-only, judged by the exact oracle"""
+    rng = ctx.rng
+    lattice = [(x, y, z) for x in range(-1, 2) for y in range(-1, 2) for z in range(-1, 2)]
+    out = []
+    for b in range(n_bases):
+        nat = rng.choice([2, 2, 3, 4])
+        schema_like = b % 2 == 0
+        els = [rng.choice(LIGHT) for _ in range(nat)]
+        base = [[Decimal(v) + Decimal(rng.randrange(-3, 4)) / 16 for v in st] for st in rng.sample(lattice, nat)]
+        i, j = rng.sample(range(nat), 2)
+        o = rng.choice(SWEEP_OFFS)
+        for p in range(10, 37):
+            for _ in range(2):
+                sh = [0 if rng.random() < 0.2 else rng.choice([1, -1]) * rng.choice([1, 3, 5, 7]) * 2 ** p for _ in range(3)]
+                if not any(sh):
+                    sh[rng.randrange(3)] = 2 ** p
+                bits = max(3, min(4, 15 - len(str(max(abs(x) for x in sh) + 4))))
+                pts = [[dyadic(x, bits) for x in pt] for pt in base]
+                pts[j] = [pts[i][k] + Decimal(o[k]) / 2 ** bits for k in range(3)]
+                c = {"geom": [format(pt[k] + sh[k], "f") for pt in pts for k in range(3)], "near_pair": [i, j],
+                     "far": {"kind": "sweep", "shift": sh, "grid_bits": bits, "pair_offset": [x / 2 ** bits for x in o]}}
+                if schema_like:
+                    c.update({"elem": list(els), "units": "Bohr", "speclabel": False, "schema_like": True})
+                else:
+                    c.update({"elez": [T["e2z"][e] for e in els], "units": rng.choice(["Bohr", "Angstrom"])})
+                for x in c["geom"]:
+                    if Decimal(repr(float(x))) != Decimal(x):
+                        raise AssertionError("far sweep: %s is not an exact binary64 value with a short repr" % x)
+                out.append(c)
+    return out
+
+
+# ------------------------------------------------------------------------------------------------
+# stream "spelling" (implementation only): the same molecule with its columns spelled as numpy arrays of narrow / unsigned /
+# big-endian / Fortran-ordered / strided types must be judged exactly as the plain-list spelling; the arrays handed in are
+# not aliased into the returned record, and asking again gives the same answer.
+
+def gen_spelling_case(ctx, T):
+    rng = ctx.rng
+    nat = rng.choice([1, 2, 2, 3, 4, 5])
+    integral = rng.random() < 0.3
+    lattice = [(x, y, z) for x in range(0, 4) for y in range(0, 4) for z in range(0, 4)]
+    pts = [[Decimal(v) if integral else Decimal(v) + Decimal(rng.randrange(-3, 4)) / 16 for v in st] for st in rng.sample(lattice, nat)]
+    if nat >= 2 and rng.random() < 0.3:
+        i, j = rng.sample(range(nat), 2)
+        o = (0, 0, 0) if integral else rng.choice(SWEEP_OFFS)
+        pts[j] = [pts[i][k] + Decimal(o[k]) / 16 for k in range(3)]
+    els = [rng.choice(POOL) for _ in range(nat)]
+    c = {"geom": [format(x, "f") for p in pts for x in p], "elez": [T["e2z"][e] for e in els], "units": rng.choice(["Bohr", "Angstrom"]),
+         "integral": integral}
+    if rng.random() < 0.5:
+        c["elea"] = [T["ea2a"][e] if rng.random() < 0.7 else rng.choice(sorted(T["iso"][e])) for e in els]
+    if rng.random() < 0.5:
+        c["real"] = [rng.random() < 0.7 for _ in els]
+    if rng.random() < 0.4:
+        c["mass"] = [T["ea2massstr"][e] for e in els]
+        c.pop("elea", None)
+    if rng.random() < 0.4:
+        c["elem"] = [c06.rand_case_sym(rng, e) for e in els]
+    if nat >= 2 and rng.random() < 0.5:
+        c["seps"] = sorted(rng.sample(range(1, nat), rng.choice([1, min(2, nat - 1)])))
+        if rng.random() < 0.3:
+            c["seps"] = [x - nat for x in c["seps"]]
+    return c
+
+
+def spellings_of(c):
+    """(name, {from_arrays keyword: numpy spelling}) — one column at a time, then all together"""
+    import numpy as np
+    nat = len(c["geom"]) // 3
+    g = np.array([float(x) for x in c["geom"]])
+    out = [("geom C (nat,3)", {"geom": g.reshape(nat, 3).copy()}), ("geom F (nat,3)", {"geom": np.asfortranarray(g.reshape(nat, 3))}),
+           ("geom >f8", {"geom": g.astype(">f8")}), ("geom f4", {"geom": g.astype("f4")}),
+           ("geom strided", {"geom": np.repeat(g, 2)[::2]}), ("geom tuple", {"geom": tuple(g.tolist())})]
+    if c.get("integral"):
+        gi = [int(float(x)) for x in c["geom"]]
+        out += [("geom int list", {"geom": gi}), ("geom int8", {"geom": np.array(gi, dtype=np.int8)}), ("geom uint8", {"geom": np.array(gi, dtype=np.uint8)}),
+                ("geom >i4 (nat,3)", {"geom": np.array(gi, dtype=">i4").reshape(nat, 3)})]
+    for k, name in (("elez", "elez"), ("elea", "elea")):
+        if c.get(k) is not None:
+            narrow = np.uint8 if all(0 <= x < 256 for x in c[k]) else np.uint16
+            out += [(name + " uint8", {name: np.array(c[k], dtype=narrow)}), (name + " int16", {name: np.array(c[k], dtype=np.int16)}),
+                    (name + " >i8", {name: np.array(c[k], dtype=">i8")}), (name + " float list", {name: [float(x) for x in c[k]]})]
+    if c.get("real") is not None:
+        out += [("real bool_", {"real": np.array(c["real"], dtype=bool)}), ("real 0/1 list", {"real": [int(x) for x in c["real"]]}),
+                ("real uint8", {"real": np.array(c["real"], dtype=np.uint8)})]
+    if c.get("mass") is not None:
+        m = [float(x) for x in c["mass"]]
+        out += [("mass >f8", {"mass": np.array(m, dtype=">f8")}), ("mass f8", {"mass": np.array(m)})]
+    if c.get("elem") is not None:
+        out += [("elem str_", {"elem": np.array(c["elem"])})]
+    if c.get("seps") is not None:
+        out += [("seps int8", {"fragment_separators": np.array(c["seps"], dtype=np.int8)}), ("seps >i8", {"fragment_separators": np.array(c["seps"], dtype=">i8")})]
+        if all(x >= 0 for x in c["seps"]):
+            out += [("seps uint8", {"fragment_separators": np.array(c["seps"], dtype=np.uint8)})]
+    allkw = {}
+    for name, kw in out:
+        if name in ("geom F (nat,3)", "elez uint8", "elea int16", "real bool_", "mass >f8", "elem str_", "seps int8"):
+            allkw.update(kw)
+    out.append(("all numpy", allkw))
+    return out
+
+
+def spelled_call(c, over, alias=False):
+    """from_arrays on case c with the keywords in `over` replaced; ("Ok", canonical record) / ("Err", kind); with alias=True
+    also mutate every array handed in afterwards and report whether the returned record moved"""
+    import numpy as np
+    from qcelemental.molparse import from_arrays
+    kw = arrays_kwargs(c)
+    kw.update(over)
+    try:
+        with contextlib.redirect_stdout(io.StringIO()):
+            r = from_arrays(verbose=0, **kw)
+    except Exception as e:
+        return ("Err", ekind_of(e)), None
+    before = canon_record(r)
+    moved = None
+    if alias:
+        for v in over.values():
+            if isinstance(v, np.ndarray) and v.dtype.kind in "fiu" and v.flags.writeable:
+                v += 1
+            elif isinstance(v, np.ndarray) and v.dtype.kind == "b":
+                np.logical_not(v, out=v)
+        moved = canon_record(r) != before
+    return ("Ok", before), moved
+
+
+def spelling_judge(c, name):
+    """None or a message: spelling `name` of case c against the plain-list spelling"""
+    ref, _ = spelled_call(c, {})
+    for nm, over in spellings_of(c):
+        if nm != name:
+            continue
+        got, moved = spelled_call(c, over, alias=True)
+        if got != ref:
+            return f"spelling '{nm}' of the same molecule is judged differently from the plain-list spelling: {diff(ref, got) if got[0] == ref[0] == 'Ok' else (ref[0:2] if ref[0] == 'Err' else 'Ok', got[0:2] if got[0] == 'Err' else 'Ok')}"
+        if moved:
+            return f"the record returned for spelling '{nm}' changes when the caller's arrays are modified afterwards (input aliased into the answer)"
+        again, _ = spelled_call(c, {k: v for k, v in spellings_of(c) if k == nm}[nm])
+        if again != ref:
+            return f"asking again with spelling '{nm}' gives a different answer: {again[0:2] if again[0] == 'Err' else 'Ok'}"
+    return None
+
+
+def spelling_stream(ctx, T, corr):
+    n = 1500 if ctx.thorough else 120
+    for _ in range(n):
+        c = gen_spelling_case(ctx, T)
+        if not geom_safe(c):
+            continue
+        out = impl_from_arrays(c)
+        bad = oracle(T, c, out)
+        if bad:
+            corr.failures.append({"stream": "spelling", "case": {"input": public(c)}, "what": bad, "observed": out, "entry": "from_arrays"})
+            continue
+        for nm, _ in spellings_of(c):
+            corr.count("spelling")
+            corr.hit("spelling_" + nm.split(" ")[0] + "_" + out[0])
+            bad = spelling_judge(c, nm)
+            if bad and sum(1 for f in corr.failures if f["stream"] == "spelling") < 8:
+                corr.failures.append({"stream": "spelling", "case": {"input": public(c), "spelling": nm}, "what": bad, "observed": out,
+                                      "entry": "from_arrays"})
 
 
 def geom_safe(c):
@@ -1382,6 +1619,12 @@ CORPUS = [
     {"geom": ["0", "0", "0", "0.05", "0.05", "0.05"], "elez": [1, 1]},
     {"geom": ["0", "0", "0", "0.05", "0.05", "0.05"], "elem": ["H", "He"], "units": "Bohr", "speclabel": False, "schema_like": True},
     {"geom": ["1.5", "0", "0", "0", "3.0", "0", "1.56", "0.06", "0.02"], "elez": [1, 8, 1]},
+    # far from the origin (exact binary64 coordinates): a pair 0.0625 apart, a coincident pair, and a pair 0.125 apart (accepted)
+    {"geom": ["33554432", "-16777216", "0", "33554432.0625", "-16777216", "0"], "elem": ["H", "He"], "units": "Bohr", "speclabel": False,
+     "schema_like": True},
+    {"geom": ["-3145728.5", "1048576.25", "5242880", "0", "0", "0", "-3145728.5", "1048576.25", "5242880"], "elez": [8, 1, 1]},
+    {"geom": ["33554432", "-16777216", "0", "33554432.125", "-16777216", "0"], "elem": ["H", "He"], "units": "Bohr", "speclabel": False,
+     "schema_like": True},
     {"geom": [], "elez": []},
     {"geom": [], "elez": [], "minimal": True},
     {"geom": ["0", "0", "0", "0", "0", "1.0", "0", "0", "2.0", "0", "0", "3.0"], "elez": [1, 1, 1, 1], "seps": [-2]},
@@ -1423,6 +1666,8 @@ def correspond(ctx):
                  "speclabel/tooclose/mtol/zero_ghost_fragments/nonphysical, plus structural malformations; schema-like inputs also "
                  "through from_schema and Molecule(**kwargs); every accepted record fed back through from_arrays, to_schema->from_schema "
                  "(dtype 1 and 2) and Molecule; near-overlap pairs in general directions at 0.3..1.6 x tooclose at any list position; "
+                 "the same far from the origin (translations (odd) x 2^p, p = 12..34, exact binary64 coordinates; sweep 2^10..2^36); "
+                 "numpy spellings of the columns (implementation only); "
                  "fragment index patterns (ordered, wholesale-permuted, interleaved; distinct elements and fragment charges) through "
                  "from_schema / Molecule with an atom -> (symbol, coordinates, fragment charge, multiplicity) association check; "
                  "non-trivial = accepted by the implementation; distinct = distinct inputs")
@@ -1445,6 +1690,13 @@ def correspond(ctx):
         c = gen_case(ctx, T, schema_like=True)
         if safe_for_exact(T, c):
             cases.append(("schema_like", c))
+            k += 1
+    n_far = 5000 if ctx.thorough else 450
+    k = 0
+    while k < n_far:
+        c = gen_far_case(ctx, T, schema_like=(k % 2 == 0))
+        if safe_for_exact(T, c):
+            cases.append(("far", c))
             k += 1
     n_edge = 6000 if ctx.thorough else 600
     unsafe = set()
@@ -1474,7 +1726,7 @@ def correspond(ctx):
         where = "from_arrays"
         if not bad:
             fp = oracle_fixed_point(T, c, out) or schema_checks(T, c, out)
-            if not fp and (stream == "schema_like" or (stream == "corpus" and c.get("schema_like"))):
+            if not fp and (stream == "schema_like" or (stream in ("corpus", "far") and c.get("schema_like"))):
                 fp = entry_point_agreement(T, c, out)
             if fp:
                 where, bad = fp
@@ -1493,6 +1745,17 @@ def correspond(ctx):
                 corr.count("schema_roundtrip", len(rt))
                 rterms.extend(rt)
                 rmeta.extend([(c, out)] * len(rt))
+    # far-from-origin sweep (implementation only; the exact oracle says which inputs hold an overlapping pair)
+    for c in gen_far_sweep(ctx, T, 160 if ctx.thorough else 24):
+        if not geom_safe(c):
+            continue
+        out, bad, where = judge(T, c)
+        corr.count("far_sweep")
+        mal = malformation(T, c)
+        corr.hit("far_sweep_" + ("overlap" if mal else "clear") + "_" + (out[0] if out[0] == "Ok" else "Err_" + out[1]))
+        if bad and sum(1 for f in corr.failures if f["stream"] == "far_sweep") < 12:
+            corr.failures.append({"stream": "far_sweep", "case": {"input": public(c)}, "what": bad, "observed": out, "entry": where})
+    spelling_stream(ctx, T, corr)
     # fragment patterns through from_schema / Molecule (implementation only)
     n_fp = 12000 if ctx.thorough else 1200
     for k in range(len(FRAG_CORPUS) + n_fp):
@@ -1539,7 +1802,7 @@ def judge(T, c):
     bad = oracle(T, c, out)
     where = "from_arrays"
     if not bad:
-        fp = oracle_fixed_point(T, c, out) or schema_checks(T, c, out) or entry_point_agreement(T, c, out) if c.get("units") == "Bohr" and not c.get("speclabel", True) and defaults_case(c) and not c.get("minimal") else (oracle_fixed_point(T, c, out) or schema_checks(T, c, out))
+        fp = oracle_fixed_point(T, c, out) or schema_checks(T, c, out) or entry_point_agreement(T, c, out) if c.get("units") == "Bohr" and not c.get("speclabel", True) and defaults_case(c) and not c.get("minimal") and c.get("iutau") is None else (oracle_fixed_point(T, c, out) or schema_checks(T, c, out))
         if fp:
             where, bad = fp
     return out, bad, where
@@ -1573,6 +1836,9 @@ def replay(ctx, rp):
     c = rp["case"]["input"]
     if c.get("conn") is not None:
         c["conn"] = [tuple(t) for t in c["conn"]]
+    if "spelling" in rp["case"]:
+        bad = spelling_judge(c, rp["case"]["spelling"])
+        return {"input": c, "spelling": rp["case"]["spelling"], "oracle": bad, "entry_point": "from_arrays", "fails": bool(bad)}
     out, bad, where = judge(T, c)
     return {"input": c, "implementation": out, "oracle": bad, "entry_point": where, "fails": bool(bad)}
 
@@ -1588,7 +1854,7 @@ TRUSTED = [
     "coq/Gen/PTable.v (periodic table) and coq/Gen/MolConsts.v (bohr2angstroms, the 0.05 units window, bond-order bound) regenerated from /repo on every run; from_arrays keyword defaults pinned by the translator",
     "hand-written model coq/Model/MolSchema.v of from_schema (sniffing, contiguize_from_fragment_pattern incl. fast path and reorder, hand-over to from_arrays), to_schema (Bohr records) and the fragment bookkeeping of Molecule.__init__, tied by differential execution (streams schema, schema_molecule, schema_roundtrip); the other Molecule attributes (masses / mass_numbers / real / labels after _filter_defaults, title-casing, rounding) are exercised on the implementation only",
     "harness/props/c04.py translators: from_schema.py's sniffed prefixes/versions and the fixed keywords it passes on are read from the AST (fail-closed) into coq/Gen/MolConsts.v",
-    "numpy (asarray/reshape/split/einsum), pydantic.v1 coercion, CPython float arithmetic: modelled or exercised, not verified; coordinates are 3-decimal values so exact and binary64 screens agree",
+    "numpy (asarray/reshape/split/einsum), pydantic.v1 coercion, CPython float arithmetic: modelled or exercised, not verified; coordinates are 3-decimal values (far streams: exact binary64 values with a short repr) so exact and binary64 screens agree",
 ]
 ASSUMPTIONS = [
     "typed inputs: per-atom columns are flat lists (entries possibly None), separators a list of ints, integer charges/multiplicities, boolean flags; domain 'qm' only (EFP and qmvz are outside the model)",
@@ -1615,24 +1881,37 @@ LEVEL_TEXT = (
     "keyword merge list the atoms in order) — the last three are the full statements since the repairs 2b49794 / 361a5b1 of the fixed "
     "findings C04-single-fragment-offset (fragments [[5,6]] on two atoms was accepted) and C04-empty-fragment-list-indexerror "
     "(fragments [] raised IndexError), whose failing inputs stay in the schema corpus and as the Coq Example "
-    "C04_ex_old_failing_inputs_refused. "
+    "C04_ex_old_failing_inputs_refused; C04_contiguize_complete (conversely contiguize accepts every in-order pattern whose arrays have "
+    "the right lengths and hands everything through), C04_schema_fixed_point (a Bohr record with non-negative separators accepted under "
+    "from_schema's settings is accepted and reproduced by from_schema(to_schema(.)), dtype 1 and 2) and "
+    "C04_schema_fixed_point_fragments (the Molecule built from that dictionary has the record's fragments); "
+    "C04_translation_invariant (decision, error class and record of the model commute with rigid translation of the geometry) and "
+    "C04_too_close_refused_anywhere (a pair closer than tooclose is refused at any distance from the origin). "
     "The models are tied to from_arrays.py on every run by exact differential execution on generated "
     "molecules (incl. malformed ones); the Python mirror of the invariants, the fixed point and the refusal classes runs on the "
     "implementation through from_arrays, to_schema->from_schema (dtype 1, 2) and Molecule(**kwargs), which are also checked to agree "
     "on schema-expressible raw inputs; QCSchema dictionaries (name/version variants x 19 kinds of fragment pattern x columns) run "
     "through from_schema and Molecule against Model/MolSchema.v (exact records and Molecule.fragments), accepted Bohr records through "
-    "from_schema(to_schema(.)) against the model, and user masses at nuclide mass +- (mtol + d), d in -1e-5..2e-5, fed back.")
+    "from_schema(to_schema(.)) against the model, user masses at nuclide mass +- (mtol + d), d in -1e-5..2e-5, fed back; the same "
+    "molecules (near-threshold, coincident and clear pairs) translated by (odd integer) x 2^p, p = 12..34, with coordinates that are "
+    "exact binary64 numbers of at most 15 digits, through the model and all three entry points (stream far), a sweep of small "
+    "molecules over every magnitude 2^10..2^36 judged by the exact oracle (far_sweep), and numpy spellings of the columns (narrow, "
+    "unsigned, big-endian, Fortran-ordered, strided, float32) against the plain-list spelling incl. an aliasing check (spelling).")
 LEVEL_NOTE = (
     "Clause map (full text at the top of coq/Props/C04.v): invariants of an accepted record -> C04_accepted_invariants, "
     "C04_split_partition (from_arrays), C04_from_schema_is_from_arrays + C04_from_schema_accepted_invariants + C04_contiguize_accepts "
     "(QCSchema), C04_molecule_fragments_partition (Molecule: fragments only; other attributes by oracle on the implementation); "
-    "fixed point -> C04_idempotent for from_arrays; through from_schema(to_schema) and Molecule ONLY differential/oracle (no theorem); "
+    "no pair closer than the threshold anywhere in space -> C04_translation_invariant, C04_too_close_refused_anywhere + streams far / "
+    "far_sweep; fixed point -> C04_idempotent for from_arrays, C04_schema_fixed_point (+ C04_contiguize_complete) through "
+    "from_schema(to_schema), C04_schema_fixed_point_fragments for the re-built Molecule's fragments (its other attributes ONLY "
+    "differential/oracle); "
     "refusals -> eleven C04_rejects_* / C04_from_schema_rejects_unknown_schema, classes -> C04_refusal_classes, "
     "C04_from_schema_refusal_classes; 'every accepted fragment pattern partitions the atoms in order' -> "
     "C04_contiguize_partition (full since 2b49794). "
     "Trusted: Coq kernel + vm_compute; the hand-written models (typed inputs; domain 'qm' only: EFP and qmvz dispatch, name/comment/"
     "provenance, update_with_error's conflict detection are not modelled; integer charges/multiplicities; exact rationals instead of "
-    "binary64 — generators keep coordinates at 3 decimals and masses >= 1e-9 from every decision edge); the translators (PTable, "
+    "binary64 — generators keep coordinates at 3 decimals (far streams: exact binary64 values of at most 15 digits, pair distances "
+    ">= 0.2% from the threshold) and masses >= 1e-9 from every decision edge); the translators (PTable, "
     "MolConsts: bohr2angstroms read from qcelemental.constants at run time, 0.05 window / bond-order bound / keyword defaults parsed "
     "from from_arrays.py, schema prefixes/versions and pass-through keywords parsed from from_schema.py, fail-closed); of "
     "Molecule.__init__ only the fragment bookkeeping is modelled, to_schema only for Bohr records; the remaining Molecule glue is "
